@@ -228,6 +228,7 @@ class Net:
         self.open_count = 0
         self.sched = ENV["sched"]  # set by the sync runner
         self.op_budget = 400_000
+        self.hops = None  # optional callable(kind, idx) -> extra scheduler round-trips an operation takes (same instant)
         self.write_after_server_close = "error"
         self.sleeps: list[float] = []
         self.log_events = True
@@ -363,6 +364,14 @@ import anyio  # noqa: E402
 import anyio.lowlevel  # noqa: E402
 
 
+async def _hops(net, kind, idx) -> None:
+    """Same-instant scheduling jitter: the operation completes a few scheduler round-trips later (each one a
+    cancellable checkpoint, before the operation has had any effect)."""
+    if net.hops is not None:
+        for _ in range(net.hops(kind, idx)):
+            await anyio.lowlevel.checkpoint()
+
+
 class SimAsyncStream(httpcore.AsyncNetworkStream):
     def __init__(self, net: Net, tr: Transport, layer: int) -> None:
         self.net = net
@@ -385,6 +394,7 @@ class SimAsyncStream(httpcore.AsyncNetworkStream):
             net.log("busy", tr=tr.id, what="read")
         try:
             await anyio.lowlevel.checkpoint()
+            await _hops(net, "read", idx)
             if tr.closed or tr.broken:
                 net.log("read.dead", tr=tr.id, op=idx)
                 raise httpcore.ReadError("simnet: read on closed/broken stream")
@@ -444,6 +454,7 @@ class SimAsyncStream(httpcore.AsyncNetworkStream):
             net.log("busy", tr=tr.id, what="write")
         try:
             await anyio.lowlevel.checkpoint()
+            await _hops(net, "write", idx)
             if tr.closed or tr.broken:
                 net.log("write.dead", tr=tr.id, op=idx)
                 raise httpcore.WriteError("simnet: write on closed/broken stream")
@@ -518,6 +529,7 @@ class SimAsyncBackend(httpcore.AsyncNetworkBackend):
         net = self.net
         idx, fault = net.begin_op("connect", None, target=target, timeout=timeout, **extra)
         await anyio.lowlevel.checkpoint()
+        await _hops(net, "connect", idx)
         if fault is not None:
             net.raise_fault(fault, "connect", None, idx)
         d = net.lat("connect", idx)
